@@ -294,6 +294,79 @@ def gen_sibling(rng, **_):
     return sc
 
 
+def gen_errnest(rng, **_):
+    """nested awaits with failures inside the await window: a handler dispatches a child and awaits it, a handler of the child
+    (or of a grandchild) raises, lets a CancelledError escape, returns an exception or runs into its timeout, and the awaiting
+    handler goes on afterwards - dispatches further events, reads event_bus, awaits again; other handlers of the same events
+    and an unrelated stream run around it"""
+    n = rng.choice([1, 1, 2])
+    sc = {'buses': [{'parallel': rng.random() < 0.2, 'maxh': 50, 'wal': False} for _ in range(n)],
+          'types': {t: {'timeout': None} for t in 'ABCD'}, 'handlers': [], 'tasks': []}
+    home = {t: rng.randrange(n) for t in 'ABCD'}
+
+    def fail():
+        x = rng.random()
+        return ['raise'] if x < 0.6 else ['raise_cancelled'] if x < 0.75 else ['return_exc'] if x < 0.85 else ['sleep', 3 / 4]
+
+    if rng.random() < 0.4:
+        sc['types'][rng.choice('BC')]['timeout'] = rng.choice([9 / 128, 33 / 128])
+    # A: dispatch B, await it, go on
+    after = []
+    slot = 1
+    for _ in range(rng.randint(1, 3)):
+        x = rng.random()
+        if x < 0.55:
+            after.append(['dispatch', home[rng.choice('CD')], rng.choice('CD'), slot])
+            slot += 1
+        elif x < 0.7:
+            after.append(['readbus'])
+        elif x < 0.85 and slot > 1:
+            after.append(['await', rng.randrange(1, slot)])
+        else:
+            after.append(['sleep', rng.choice([0, 1 / 64])])
+    pa = ([['readbus']] if rng.random() < 0.3 else []) + [['dispatch', home['B'], 'B', 0], ['await', 0]] + after
+    sc['handlers'].append({'bus': home['A'], 'key': 'A', 'kind': 'async', 'prog': pa})
+    if rng.random() < 0.4:
+        sc['handlers'].append({'bus': home['A'], 'key': rng.choice(['A', '*']), 'kind': rng.choice(['async', 'sync']),
+                               'prog': [['dispatch', home['D'], 'D', 0]] if rng.random() < 0.5 else []})
+    # B: one of its handlers fails (maybe after dispatching / awaiting a grandchild), others do not
+    nbh = rng.randint(1, 3)
+    bad = rng.randrange(nbh)
+    for j in range(nbh):
+        kind = rng.choice(['async', 'async', 'sync'])
+        prog = []
+        if rng.random() < 0.5:
+            prog.append(['dispatch', home['C'], 'C', 0])
+            if kind == 'async' and rng.random() < 0.6:
+                prog.append(['await', 0])
+        if j == bad:
+            f = fail()
+            if kind == 'sync' and f[0] in ('raise_cancelled', 'sleep'):
+                f = ['raise']
+            prog.append(f)
+        elif kind == 'async' and rng.random() < 0.5:
+            prog.append(['sleep', rng.choice([0, 1 / 64, 1 / 8])])
+        sc['handlers'].append({'bus': home['B'], 'key': 'B', 'kind': kind, 'prog': prog})
+    # C: sometimes fails too, sometimes dispatches D
+    for j in range(rng.randint(0, 2)):
+        prog = [['dispatch', home['D'], 'D', 0]] if rng.random() < 0.4 else []
+        if rng.random() < 0.4:
+            prog.append(['raise'])
+        sc['handlers'].append({'bus': home['C'], 'key': 'C', 'kind': rng.choice(['async', 'sync']), 'prog': prog})
+    if rng.random() < 0.6:
+        sc['handlers'].append({'bus': home['D'], 'key': 'D', 'kind': 'async', 'prog': [['sleep', rng.choice([0, 1 / 64])]]})
+    main = [['dispatch', home['A'], 'A', 0]]
+    if rng.random() < 0.5:
+        main.append(['dispatch', home['A'], 'A', 1])
+    main.append(['await', 0])
+    if rng.random() < 0.5:
+        main.append(['waitidle', home['A']])
+    sc['tasks'].append(main)
+    if rng.random() < 0.3:
+        sc['tasks'].append([['sleep', rng.choice([0, 1 / 64, 5 / 64])], ['dispatch', rng.randrange(n), rng.choice('BCD'), 0]])
+    return sc
+
+
 def gen_parraise(rng, idle=False, **_):
     """a parallel_handlers bus on which one handler raises (or returns an exception object) while sibling handlers of the same
     event are mid-flight - sleeping, or awaiting a child on a serial bus whose first of several handlers is running"""
